@@ -111,6 +111,14 @@ pub fn cmd_ciphers(args: &[String]) -> i32 {
         qs.push(n.replace("CBC", "GCM"));
         qs.push(n.replace("ECDHE", "ECDH"));
         qs.push(n.replace("DHE", "DH"));
+        // prefixes and tokens repeated or stripped
+        qs.push(format!("TLS_{}", n));
+        qs.push(format!("TLS_TLS_{}", n));
+        qs.push(n.trim_start_matches("TLS_").to_string());
+        qs.push(format!("{}{}", n, n));
+        qs.push(format!("{}_{}", n, n.trim_start_matches("TLS_")));
+        if let Some(p) = n.find("_WITH_") { qs.push(format!("{}_WITH{}", &n[..p], &n[p..])); }
+        if let Some(p) = n[4..].find('_') { qs.push(format!("{}{}", &n[..4 + p + 1], &n[4..])); }
     }
     qs.sort();
     qs.dedup();
